@@ -6,6 +6,7 @@ import (
 	"go/token"
 	"go/types"
 	"math/big"
+	"os"
 	"sort"
 	"strings"
 	"sync"
@@ -931,6 +932,7 @@ func (x *Exec) checkFrame(exit, pre *State, c *Contract, pos token.Pos) {
 	}
 	sort.Strings(keys)
 	var cs []*Term
+	var changed []string
 	for _, k := range keys {
 		if allowed(k) || x.initKeys[k] {
 			continue
@@ -940,7 +942,14 @@ func (x *Exec) checkFrame(exit, pre *State, c *Contract, pos token.Pos) {
 		if !ok {
 			o = x.b.Var("H0."+k, a.Sort)
 		}
-		cs = append(cs, x.b.Eq(a, o))
+		eq := x.b.Eq(a, o)
+		if !eq.IsTrue() {
+			changed = append(changed, k)
+		}
+		cs = append(cs, eq)
+	}
+	if os.Getenv("GOVC_FRAMEDEBUG") != "" && len(changed) > 0 {
+		fmt.Fprintf(os.Stderr, "frame %s: possibly changed keys: %v\n", x.qual, changed)
 	}
 	for k, g := range exit.globals {
 		if strings.HasPrefix(k, "ghost.") || strings.HasPrefix(k, "const.") || allowed("global."+k) {
